@@ -411,6 +411,62 @@ async fn degenerate(ctx: &mut Ctx, ty: &str, name: &str, wire: Frames, must_reje
         ),
         _ => {}
     }
+    // whatever became of that message, the NEXT proper request on the same connection is
+    // handled as if it were the first: payload exact, reply envelope exactly its own
+    if ty == "REP" && !peer.conn.reader_dropped() {
+        let before = peer.out_msgs().map(|m| m.len()).unwrap_or(0);
+        let req = mk(0xF1, &[5, 0]);
+        let mut w: Frames = vec![b"hop-2".to_vec(), vec![]];
+        w.extend(req.clone());
+        // (the degenerate message once more, directly in front: both are there when recv looks)
+        peer.send(&wire);
+        peer.send(&w);
+        let mut got = None;
+        for _ in 0..3 {
+            match recv_now(&mut sock).await {
+                Some(Ok(m)) if !must_reject && m != req && got.is_none() && rc::parse_tag(&m, 0).is_err() && m.len() <= wire.len() => {
+                    // the (acceptable) degenerate message itself, e.g. a request without delimiter
+                    continue;
+                }
+                Some(Ok(m)) => {
+                    got = Some(m);
+                    break;
+                }
+                Some(Err(_)) => continue,
+                None => break,
+            }
+        }
+        if let Some(m) = got {
+            if m != req {
+                ctx.violation_with(
+                    "C07/rep-recv-not-the-frames-after-the-delimiter",
+                    format!("request {} sent after the degenerate message {} on the same connection: REP.recv returned {}", rc::frames_summary(&w), rc::frames_summary(&wire), rc::frames_summary(&m)),
+                    case.clone(),
+                );
+                return;
+            }
+            let rpl = mk(0xF2, &[3]);
+            let _ = sim::complete(sock.send(&rpl)).await;
+            let mut want: Frames = vec![b"hop-2".to_vec(), vec![]];
+            want.extend(rpl.clone());
+            let outs = peer.out_msgs().unwrap_or_default();
+            if outs.len() != before + 1 || outs.last() != Some(&want) {
+                ctx.violation_with(
+                    "C07/rep-reply-envelope",
+                    format!(
+                        "after the degenerate message {} a proper request {} was answered: reply on the wire {:?}, expected exactly {}",
+                        rc::frames_summary(&wire),
+                        rc::frames_summary(&w),
+                        outs.iter().skip(before).map(|x| rc::frames_summary(x)).collect::<Vec<_>>(),
+                        rc::frames_summary(&want)
+                    ),
+                    case.clone(),
+                );
+                return;
+            }
+            ctx.count("proper_requests_after_a_degenerate_one");
+        }
+    }
 }
 
 /// A real ROUTER hop in front of REP: raw REQ clients (no Identity property, an empty
@@ -745,6 +801,7 @@ impl Prop for C07 {
             ("multi_hop_prefix", 100),
             ("rep_two_request_sequences", 48),
             ("chain_round_trips", 1000),
+            ("proper_requests_after_a_degenerate_one", 3),
             ("chain_replies_to_a_reconnected_client", 200),
             ("chain_identity/empty", 200),
             ("chain_identity/none", 200),
